@@ -56,13 +56,16 @@ CLAIMED = {
         technique="Coq proof (bit-list round trip; Flocq error bound) + extracted-model correspondence"),
     "C08": dict(
         text="Theorems C08_scaled_range, C08_scaled_phase, C08_scaled_rate (the uint64/int64 wraps are harmless; the aggregates "
-             "are exactly the standard's sums), C08_msm4_msm7_agree, C08_invalid (axiom-free) and C08_range_error (Flocq: the "
-             "pseudorange in metres has relative error below 2^-51 for every 41-bit scaled range). Correspondence: the bits of "
+             "are exactly the standard's sums), C08_msm4_msm7_agree, C08_invalid (axiom-free) and four Flocq error theorems over the "
+             "operation-by-operation binary64 model: C08_range_error (pseudorange in metres, relative error below 2^-51 for "
+             "every 41-bit scaled range), C08_rate_error (m/s, at most 2^-53), C08_phase_error (cycles, below 2^-50) and "
+             "C08_doppler_error (Hz, below 2^-50), the last two for EVERY (constellation, signal) pair of the wavelength "
+             "table that has a frequency (each frequency is proved an integer number of Hz in [1e9, 2e9] by evaluating the "
+             "table). Correspondence: the bits of "
              "every float result (range, phase range, rate, Doppler, wavelength) of ~2000 tuples per run are compared with the "
              "Coq primitive-float model evaluated by the kernel VM, and with the standard's formulas in exact rational arithmetic.",
-        note=CORR + "Partial: the relative-error theorem is proved for the pseudorange; for phase range, rate and Doppler the "
-             "binary64 pipelines are modelled operation by operation and compared bit for bit with the implementation and "
-             "against the exact formulas (4-6 units of 2^-53), not yet bounded by a theorem. Axioms: primitive floats/Uint63 "
+        note=CORR + "The error theorems are about the Coq primitive-float model (one IEEE operation per Go operation, no FMA); "
+             "that the Go binary computes the same doubles is the bit-for-bit correspondence. Axioms: primitive floats/Uint63 "
              "specifications and classical reals of the standard library.", design="5/C08",
         technique="Coq proof (integer exactness by lia; Flocq relative error) + bit-exact float correspondence in the kernel VM"),
     "C06": dict(
@@ -206,13 +209,22 @@ CLAIMED = {
              "schedules; that the lock statements guard the same mutex is read off the source by a syntactic pattern.", design="5/C18",
         technique="Coq proof (induction over operation sequences; invariant over all interleavings of lock-protected non-atomic bodies) + source lock facts + race-detector runs"),
     "C19": dict(
-        text="Theorems C19_escaped, C19_sanitise (axiom-free): in the page model every traffic-derived part passes through the "
+        text="Theorems C19_relay_every_schedule / C19_relay_final (axiom-free, Relay.v): the client-to-server loop (push every byte "
+             "of a chunk to the parser's channel, then write the chunk to the server), the parser (ANY framing state machine) and "
+             "the queue updater as a network over bounded channels: for all chunk sequences, capacities and schedules executions "
+             "are finite and end in ONE configuration in which the loop has returned, the server was written exactly the "
+             "client's chunks in order and unchanged, and the queue was given exactly the messages sequential framing finds in "
+             "the relayed bytes - parsing can delay the relay but not alter, withhold or stop it. Theorems C19_escaped, "
+             "C19_sanitise (axiom-free): in the page model every traffic-derived part passes through the "
              "sanitiser and sanitised text contains neither '<' nor '>'. The harness calls the real Status() with crafted buffers and "
              "queue contents, cuts the page along the template read from the source and requires every traffic-derived hole to be "
              "markup-free and the message list to be the escaped displays; the built proxy binary relays 40 sessions (valid, "
-             "malformed CRC-valid, hostile, text) over loopback in both directions and must deliver byte-identical data.",
-        note=CORR + "Partial: TCP/TLS/statusreporter are the runtime; one client session at a time; relay integrity depends on C07.",
-        design="5/C19", technique="Coq proof (sanitiser) + in-process page dissection + loopback relay differential"),
+             "malformed CRC-valid, hostile, text) over loopback in both directions, with three status pollers running during "
+             "the sessions, and must deliver byte-identical data.",
+        note=CORR + "Partial: TCP/TLS/statusreporter are the runtime; one client session at a time; the relay theorem assumes the "
+             "parser process keeps running (no panic: C07) and models the unbuffered byte channel with capacity 1; the "
+             "server-to-client loop has no parser and is covered by the loopback oracle only.",
+        design="5/C19", technique="Coq proof (relay network determinacy; sanitiser) + in-process page dissection + loopback relay differential with concurrent status polling"),
     "C20": dict(
         text="Theorems C20_consistent, C20_closed_forms: the complete table (4098 rows) produced on every run by running the real "
              "classification functions, decoders, timestamp extraction, Analyse dispatch and String on every type and sentinel is "
